@@ -1,5 +1,5 @@
 CONSTANTS HdlVal = 5 MinPL = 27 TtxN = 2 VpsN = 1 TSP = 11 HL = 17 TSH = 10 MaxLines = 64
-  Streams <- StreamsO RecStreams <- RecAll CorLines = {} Policies = {"none"} RecMode = "orig"
+  Streams <- StreamsO RecStreams <- RecAll CorLines = {} Policies = {"none"} RecMode = "orig" CcStarts = {}
 SPECIFICATION Spec
 INVARIANTS Recovery RecoveryMeaningful
 CHECK_DEADLOCK FALSE
